@@ -218,6 +218,32 @@ def canonical_text(src: str) -> str:
     return norm(canon_expr(ast.parse(src, mode="eval").body))
 
 
+def bind_loop_target(target: ast.AST, prefix: str = "E") -> Dict[str, ast.AST]:
+    """canonical names for a loop target: `for (u, v) in X` and `for e in X` (e used as e[0], e[1] or whole) both bind the
+    element to the tuple (E0, E1): returns a substitution for the target's names"""
+    if isinstance(target, ast.Name):
+        return {target.id: ast.Tuple(elts=[ast.Name(id=f"{prefix}0", ctx=ast.Load()), ast.Name(id=f"{prefix}1", ctx=ast.Load())], ctx=ast.Load())}
+    if isinstance(target, (ast.Tuple, ast.List)) and all(isinstance(x, ast.Name) for x in target.elts):
+        return {x.id: ast.Name(id=f"{prefix}{i}", ctx=ast.Load()) for i, x in enumerate(target.elts)}
+    return {}
+
+
+def canon_in_loop(e: ast.AST, defs: Dict[str, ast.AST], binding: Dict[str, ast.AST], loop: Optional[ast.AST] = None) -> str:
+    """text of e after substitution of the loop-local scalars (locals assigned inside `loop`), canonical loop-element names
+    and (a, b)[i] simplification"""
+    from sa.mir import _tuple_index_simplify
+    if loop is not None:
+        # scalars assigned at the top level of the loop body (the last assignment wins; good enough for straight-line bodies)
+        defs = {}
+        for n in loop.body:
+            if isinstance(n, ast.Assign) and len(n.targets) == 1 and isinstance(n.targets[0], ast.Name):
+                defs[n.targets[0].id] = substitute_locals(n.value, dict(defs))
+    x = substitute_locals(e, {k: v for k, v in defs.items() if k not in binding})
+    x = Subst(binding, depth=1).visit(x)
+    x = _tuple_index_simplify(x)
+    return norm(x)
+
+
 def find_for_loops(func: ast.AST) -> List[ast.For]:
     return [n for n in walk_no_nested(func) if isinstance(n, ast.For)]
 
